@@ -307,6 +307,7 @@ def selftest(ctx, behaviours):
         if b["via"] == "txt" and b["out"]["st"] == "ok" and b["ud"]["some"] and b["ud"]["s"] and not has_eq(b):
             sub = type(ctx)(ctx.prop, ctx.tier, ctx.seed)
             sub.scratch, sub.quiet, sub.findings = ctx.scratch, True, []
+            sub.replay = ctx.path("selftest-replay.json")   # report() then writes no replay file
             bb = copy.deepcopy(b)
             case, exp = concretise(sub, 0, bb)
             outp = ctx.path("c31-self.out")
@@ -316,10 +317,6 @@ def selftest(ctx, behaviours):
             import io, contextlib
             with contextlib.redirect_stdout(io.StringIO()):
                 judge(sub, bb, case, exp, o)
-            import os
-            for _, _, p in sub.violations:
-                if os.path.exists(p) and "/replays/" in p:
-                    os.remove(p)
             if not sub.violations:
                 raise ToolError("binding self-test: a flipped expectation was not rejected")
             n += 1
